@@ -38,8 +38,11 @@ def is_jwk(value: Dict[str, Any]) -> None:
         raise ValueError("must be a JWK")
 
 
-def in_choices(choices: list[str]) -> Callable[[Union[str, list[str]]], None]:
+def in_choices(choices: list[str], multiple: bool = False) -> Callable[[Union[str, list[str]]], None]:
     def _is_one_of(value: str | list[str]) -> None:
+        if multiple and not isinstance(value, list):
+            # an array-valued parameter ("key_ops"): a bare string would later be searched as text
+            raise ValueError(f"must be a list of {choices}")
         if isinstance(value, list):
             if not all(v in choices for v in value):
                 raise ValueError(f"must be one of {choices}")
@@ -147,7 +150,7 @@ JWK_PARAMETER_REGISTRY = {
             "unwrapKey",
             "deriveKey",
             "deriveBits",
-        ]),
+        ], multiple=True),
     ),
     "alg": KeyParameter("Algorithm", is_str),
     "kid": KeyParameter("Key ID", is_str),
